@@ -11,7 +11,7 @@ import itertools
 import z3
 
 from pyvc import core
-from pyvc.core import SV, And, Declined, If, Not, Or, Unsupported, deep_eq, truth
+from pyvc.core import SV, And, Declined, If, Not, Or, Unsupported, deep_eq, has_sym, truth
 
 
 class SArr:
@@ -226,30 +226,62 @@ def conformance():
                     continue
                 if not np.array_equal(dump(expand(conc(a), tgt)), exp):
                     bad.append(("expand", shape, tgt))
+            # basic indexing: ints and slices
+            if shape:
+                parts = [slice(None), 0, shape[0] - 1, slice(0, None, 2), slice(1, 5), slice(-1, None)]
+                for k in range(1, len(shape) + 1):
+                    for idx in itertools.product(parts, repeat=k):
+                        try:
+                            exp = a[idx]
+                        except IndexError:
+                            continue
+                        if any(isinstance(i, int) and not 0 <= i < shape[j] for j, i in enumerate(idx)):
+                            continue
+                        try:
+                            got = dump(_basic_index(conc(a), idx))
+                        except Unsupported:
+                            continue
+                        if got.shape != exp.shape or not np.array_equal(got, exp):
+                            bad.append(("index", shape, idx))
+                for dim in range(-len(shape) - 1, len(shape) + 1):
+                    b2 = a + 100
+                    if not np.array_equal(dump(stack([conc(a), conc(b2)], dim)), np.stack([a, b2], dim)):
+                        bad.append(("stack", shape, dim))
+                for dim in range(-len(shape), len(shape)):
+                    b2 = (a + 100)
+                    if not np.array_equal(dump(cat([conc(a), conc(b2), conc(a)], dim)), np.concatenate([a, b2, a], dim)):
+                        bad.append(("cat", shape, dim))
     finally:
         core.CUR = None
     return bad
 
 
 def _basic_index(x, index):
-    """numpy basic indexing with a tuple of slices (one per dimension) with step None or >= 1: each dimension keeps
-    len(range(*slice.indices(size))) elements, element i being start' + step*i (start' the clamped start); other index
-    forms are outside the model"""
-    from contracts.specs import spec_range_len
+    """numpy basic indexing with a tuple of slices (step None or >= 1) and integers, padded with full slices on the right:
+    a slice keeps len(range(*slice.indices(size))) elements, element i being start' + step*i (start' the clamped start); an
+    integer v (required 0 <= v < size: numpy would wrap or raise otherwise -- the path is outside the model) removes the
+    dimension and reads position v.  None / Ellipsis / arrays are outside the model."""
+    from contracts.specs import spec_range_len, spec_slice_indices
 
     if not isinstance(index, tuple):
         index = (index,)
-    if len(index) != len(x.shape) or not all(isinstance(s, slice) for s in index):
+    if len(index) > len(x.shape) or not all(isinstance(s, (slice, int, SV)) and not isinstance(s, bool) for s in index):
         raise Unsupported("indexing form outside the model")
+    index = index + (slice(None),) * (len(x.shape) - len(index))
     shape, maps = [], []
+    p = core.cur()
     for s, size in zip(index, x.shape):
-        if s.start is None and s.stop is None and s.step is None:
+        if not isinstance(s, slice):
+            if truth(And(0 <= s, s < size)):
+                maps.append(("int", s))
+            elif truth(And(-size <= s, s < 0)):
+                maps.append(("int", s + size))  # numpy wraps negative indices
+            else:
+                raise Declined("IndexError", "index out of bounds")
+        elif s.start is None and s.stop is None and s.step is None:
             shape.append(size)
             maps.append(None)
         else:
-            from contracts.specs import spec_slice_indices
-
-            p = core.cur()
             if s.step is not None and not p.entails(core._lift(s.step >= 1)):
                 raise Unsupported("slice with a step that is not known to be >= 1")
             a, b, c = spec_slice_indices(s.start, s.stop, s.step, size)  # CPython / numpy clamping rule
@@ -257,9 +289,79 @@ def _basic_index(x, index):
             maps.append((a, c))
 
     def get(idx):
-        return x.get(tuple(i if m is None else m[0] + m[1] * i for i, m in zip(idx, maps)))
+        out, j = [], 0
+        for m in maps:
+            if m is not None and m[0] == "int" and isinstance(m, tuple) and len(m) == 2 and m[0] == "int":
+                out.append(m[1])
+                continue
+            i = idx[j]
+            j += 1
+            out.append(i if m is None else m[0] + m[1] * i)
+        return x.get(tuple(out))
 
     return SArr(tuple(shape), get, x.dtype)
 
 
 SArr.__sym_getitem__ = _basic_index
+
+
+def select(i, values):
+    """values[i] for symbolic i over a concrete list of leaf values"""
+    if not has_sym(i):
+        return values[i]
+    r = values[-1]
+    for k in range(len(values) - 2, -1, -1):
+        r = If(deep_eq(i, k), values[k], r)
+    return r
+
+
+def stack(parts, dim=0):
+    """numpy.stack of equally shaped arrays along a new dimension"""
+    parts = list(parts)
+    shape0 = parts[0].shape
+    n = len(shape0) + 1
+    pos = dim % n
+    for q in parts[1:]:
+        if len(q.shape) != len(shape0) or not core.cur().entails(core._lift(deep_eq(tuple(q.shape), tuple(shape0)))):
+            raise Declined("ValueError", "all input arrays must have the same shape")
+    shape = tuple(shape0[:pos]) + (len(parts),) + tuple(shape0[pos:])
+
+    def get(idx):
+        rest = tuple(idx[:pos]) + tuple(idx[pos + 1:])
+        return select(idx[pos], [q.get(rest) for q in parts])
+
+    return SArr(shape, get)
+
+
+def cat(parts, dim=0):
+    """numpy.concatenate along an existing dimension (other dimensions must agree)"""
+    parts = list(parts)
+    n = len(parts[0].shape)
+    pos = dim % n
+    for q in parts[1:]:
+        ok = len(q.shape) == n and core.cur().entails(core._lift(And(*[deep_eq(a, b) for k, (a, b) in enumerate(zip(q.shape, parts[0].shape)) if k != pos])))
+        if not ok:
+            raise Declined("ValueError", "dimensions must match except along the concatenation axis")
+    offs = [0]
+    for q in parts:
+        offs.append(offs[-1] + q.shape[pos])
+    shape = tuple(parts[0].shape[:pos]) + (offs[-1],) + tuple(parts[0].shape[pos + 1:])
+
+    def get(idx):
+        i = idx[pos]
+        r = None
+        if not has_sym((i, offs)):
+            for k in range(len(parts)):
+                if offs[k] <= i < offs[k + 1]:
+                    return parts[k].get(tuple(idx[:pos]) + (i - offs[k],) + tuple(idx[pos + 1:]))
+            raise IndexError(i)
+        for k in range(len(parts) - 1, -1, -1):
+            v = parts[k].get(tuple(idx[:pos]) + (i - offs[k],) + tuple(idx[pos + 1:]))
+            r = v if r is None else If(i < offs[k + 1], v, r)
+        return r
+
+    return SArr(shape, get)
+
+
+OpsArrayNS.stack = staticmethod(stack)
+OpsArrayNS.cat = staticmethod(cat)
